@@ -54,7 +54,7 @@ theorem tokenRange_ok (toks : Array Token) (r : Range) (_h1 : r.lo ≤ r.hi) (h2
     program or stops with the one `expect("Parser cannot fail")` of `parser::parse`. -/
 theorem parse_never_panics (toks : List Token) :
     (∃ p, Parse.parse toks = .ok p) ∨ Parse.parse toks = .error ⟨"expect:Parser cannot fail"⟩ := by
-  have h := Total.program_safe { toks := toks.toArray, change := ⟨0, 0, toks.length⟩ }
+  have h := Total.program_np { toks := toks.toArray, change := ⟨0, 0, toks.length⟩ }
   have hparse : Parse.parse toks =
       match Parse.parseProgram { toks := toks.toArray, change := ⟨0, 0, toks.length⟩ } none { pos := 0 } with
       | .ok _ p => .ok p
@@ -64,7 +64,7 @@ theorem parse_never_panics (toks : List Token) :
   cases hr : Parse.parseProgram { toks := toks.toArray, change := ⟨0, 0, toks.length⟩ } none { pos := 0 } with
   | ok s p => exact Or.inl ⟨p, rfl⟩
   | err k s => exact Or.inr rfl
-  | panic e => exact absurd hr (h.np e)
+  | panic e => exact absurd hr (h e)
 
 theorem kind_eof (ty : TokenType) (h : ty.kind = Kind.Eof) : ty = .Eof := by
   cases ty <;> simp [TokenType.kind] at h ⊢
